@@ -64,17 +64,19 @@ type userInfo struct {
 }
 
 type slot struct {
-	n      int
-	gen    int
-	c      *vclient.Client
-	group  string
-	joined bool
-	user   string
-	evIdx  int
-	vgroup string // the group the folded view belongs to (from the last 'joined join')
-	view   map[string]userInfo
-	cur    *conn
-	log    []string
+	n        int
+	gen      int
+	c        *vclient.Client
+	group    string
+	joined   bool
+	user     string
+	evIdx    int
+	vgroup   string          // the group the folded view belongs to (from the last 'joined join')
+	everSeen map[string]bool // ids this connection was ever told about (across its sessions)
+	sessions int             // number of 'joined join' this connection has seen
+	view     map[string]userInfo
+	cur      *conn
+	log      []string
 }
 
 func normPerms(p []string) []string {
@@ -144,6 +146,7 @@ func (sc *scenario) fold(s *slot) {
 			case "join":
 				s.view = map[string]userInfo{}
 				s.vgroup = m.Str("group")
+				s.sessions++
 			case "leave":
 				s.view = map[string]userInfo{}
 				s.vgroup = ""
@@ -167,6 +170,10 @@ func (sc *scenario) fold(s *slot) {
 					sc.fail("event-from-other-group", fmt.Sprintf("%s (in %s) received 'add' for %s which never joined that group", s.c.ID, s.vgroup, id))
 				}
 				s.view[id] = info
+				if s.everSeen == nil {
+					s.everSeen = map[string]bool{}
+				}
+				s.everSeen[id] = true
 				sc.run.Count("user_add_events", 1)
 			case "change":
 				if _, ok := s.view[id]; !ok {
@@ -176,7 +183,14 @@ func (sc *scenario) fold(s *slot) {
 				sc.run.Count("user_change_events", 1)
 			case "delete":
 				if _, ok := s.view[id]; !ok {
-					sc.fail("delete-for-absent-id", fmt.Sprintf("%s received 'delete' for %s which is not in its list (announced twice, or never added)", s.c.ID, id))
+					if s.everSeen[id] && s.sessions > 1 {
+						// the departure of a member this client knew in an earlier session of the
+						// same group can reach it after it left and joined again: harmless for a
+						// client that ignores deletes of unknown ids, and the view still converges
+						sc.run.Count("stale_delete_after_rejoin", 1)
+					} else {
+						sc.fail("delete-for-absent-id", fmt.Sprintf("%s received 'delete' for %s which is not in its list (announced twice, or never added)", s.c.ID, id))
+					}
 				}
 				delete(s.view, id)
 				sc.run.Count("user_delete_events", 1)
@@ -278,6 +292,8 @@ func (sc *scenario) connect(s *slot, r *rand.Rand) {
 	}
 	s.c = c
 	s.evIdx = 0
+	s.everSeen = map[string]bool{}
+	s.sessions = 0
 	s.vgroup = ""
 	s.view = map[string]userInfo{}
 	s.joined = false
@@ -431,7 +447,9 @@ func (sc *scenario) orderedJoins(r *rand.Rand) {
 	vclient.Quiesce(append(cs, by), 3, 20*time.Millisecond, 20*time.Second)
 	var seen []string
 	for _, e := range by.Events() {
-		if e.M.Str("type") == "user" && e.M.Str("kind") == "add" && e.M.Str("id") != by.ID {
+		// only the clients of this sequence: members left over from an earlier scenario of
+		// the same child may still be around
+		if e.M.Str("type") == "user" && e.M.Str("kind") == "add" && strings.Contains(e.M.Str("id"), fmt.Sprintf("b%ds%dord", sc.batch, sc.idx)) {
 			seen = append(seen, e.M.Str("id"))
 		}
 	}
@@ -493,7 +511,17 @@ func runScenario(run *vk.Run, srv *vsrv.Server, batch uint64, idx int, actions i
 		}
 	}
 	if !sc.bad {
-		run.Distinct(fmt.Sprintf("clients%d members%d", n, members))
+		perGroup := map[string]int{}
+		for _, s := range sc.slots {
+			if s.joined {
+				perGroup[s.group]++
+			}
+		}
+		var sizes []int
+		for _, g := range groupNames {
+			sizes = append(sizes, perGroup[g])
+		}
+		run.Distinct(fmt.Sprintf("clients%d members%d per-group%v", n, members, sizes))
 	}
 	if batch == 0 && idx == 0 {
 		sc.mu.Lock()
@@ -525,9 +553,9 @@ func main() {
 		return
 	}
 	run := vk.Start("C14")
-	batches := run.Pick(6, 160)
-	scen := run.Pick(3, 6)
-	acts := run.Pick(200, 600)
+	batches := run.Pick(10, 160)
+	scen := run.Pick(4, 6)
+	acts := run.Pick(240, 600)
 	first := uint64(0)
 	if rep, ok := vk.ReplayInput(); ok {
 		m, _ := rep["replay"].(map[string]any)
